@@ -62,6 +62,9 @@ pub struct Harness {
     /// the certificate table as last projected (rowid order): any change other than an append drops
     /// the verification cache
     pub last_rows: Vec<String>,
+    /// pure-function caches (aggregate key of a signer set; owner of a stored signature)
+    pub avk_cache: std::cell::RefCell<BTreeMap<Vec<usize>, Option<String>>>,
+    pub owner_cache: std::cell::RefCell<BTreeMap<(String, String, Vec<usize>), i64>>,
 }
 
 pub fn disc_of(name: &str) -> SignedEntityTypeDiscriminants {
@@ -101,6 +104,8 @@ impl Harness {
             sigma_ids: BTreeMap::new(),
             foreign: None,
             last_rows: vec![],
+            avk_cache: Default::default(),
+            owner_cache: Default::default(),
         }
     }
 
@@ -113,9 +118,15 @@ impl Harness {
     }
 
     pub fn avk_hex_of(&self, set: &[usize]) -> Option<String> {
-        let b = self.builder_for(set)?;
-        let avk = b.compute_aggregate_verification_key();
-        mithril_common::crypto_helper::ProtocolKey::new(avk.to_concatenation_aggregate_verification_key().to_owned()).to_json_hex().ok()
+        if let Some(v) = self.avk_cache.borrow().get(set) {
+            return v.clone();
+        }
+        let v = self.builder_for(set).and_then(|b| {
+            let avk = b.compute_aggregate_verification_key();
+            mithril_common::crypto_helper::ProtocolKey::new(avk.to_concatenation_aggregate_verification_key().to_owned()).to_json_hex().ok()
+        });
+        self.avk_cache.borrow_mut().insert(set.to_vec(), v.clone());
+        v
     }
 
     /// party `who` signs `message` as a member of the registration set in force at `epoch`
@@ -210,6 +221,54 @@ impl Harness {
                 let r = self.tester.dependencies.certifier_service.register_single_signature(&set, &sig).await;
                 json!({"ok": r.is_ok(), "entity": entity_name(&set), "status": r.as_ref().map(|s| format!("{s:?}")).unwrap_or_default(),
                        "err": r.err().map(|e| format!("{e:#}").chars().take(160).collect::<String>()).unwrap_or_default()})
+            }
+            "SignBatch" => {
+                // several submissions delivered as ONE batch through the real message-queue path: a
+                // SequentialSignatureProcessor over a consumer that hands the batch over once
+                let mut batch = vec![];
+                let mut items = vec![];
+                for it in a["items"].as_array().unwrap() {
+                    match self.build_submission(it).await {
+                        Ok((set, sig, message)) => {
+                            // whose registered key verifies this submission for the message of the entity's open message
+                            let om_epoch = *set.get_epoch_when_signed_entity_type_is_signed();
+                            let owner = self.owner_of(
+                                &sig.signature.to_json_hex().unwrap_or_default(),
+                                "",
+                                &serde_json::to_string(&message).unwrap_or_default(),
+                                om_epoch,
+                            );
+                            items.push(json!({"entity": entity_name(&set), "who": it["who"], "label": it["label"].as_u64().or(it["who"].as_u64()),
+                                              "variant": it["variant"].as_str().unwrap_or("ok"), "owner": owner, "built": true}));
+                            batch.push((sig, set));
+                        }
+                        Err(e) => items.push(json!({"entity": it["entity"], "who": it["who"], "label": it["label"].as_u64().or(it["who"].as_u64()),
+                                                    "variant": it["variant"].as_str().unwrap_or("ok"), "owner": -1, "built": false, "err": e})),
+                    }
+                }
+                struct Once(std::sync::Mutex<Vec<(mithril_common::entities::SingleSignature, mithril_common::entities::SignedEntityType)>>);
+                #[async_trait::async_trait]
+                impl mithril_aggregator::services::SignatureConsumer for Once {
+                    async fn get_signatures(&self) -> mithril_common::StdResult<Vec<(mithril_common::entities::SingleSignature, mithril_common::entities::SignedEntityType)>> {
+                        Ok(std::mem::take(&mut *self.0.lock().unwrap()))
+                    }
+                    fn get_origin_tag(&self) -> String {
+                        "DMQ".to_string()
+                    }
+                }
+                use mithril_aggregator::services::SignatureProcessor;
+                let (_stop_tx, stop_rx) = tokio::sync::watch::channel(());
+                let logger = slog::Logger::root(slog::Discard, slog::o!());
+                let processor = mithril_aggregator::services::SequentialSignatureProcessor::new(
+                    Arc::new(Once(std::sync::Mutex::new(batch))),
+                    self.tester.dependencies.certifier_service.clone(),
+                    stop_rx,
+                    Arc::new(mithril_aggregator::MetricsService::new(logger.clone()).unwrap()),
+                    std::time::Duration::from_millis(1),
+                    logger,
+                );
+                let r = processor.process_signatures().await;
+                json!({"ok": r.is_ok(), "items": items, "err": r.err().map(|e| format!("{e:#}").chars().take(160).collect::<String>()).unwrap_or_default()})
             }
             "Expire" => {
                 let disc = disc_of(a["entity"].as_str().unwrap());
@@ -339,6 +398,7 @@ impl Harness {
             });
             if let Some(foreign) = &self.foreign {
                 c["origin"] = json!(if foreign.contains(&hash) { "leader" } else { "own" });
+                c["etype"] = json!(type_name(type_id));
             }
             certs.push(c);
         }
@@ -408,6 +468,31 @@ impl Harness {
                "certs": certs, "open": open, "sigs": sigs, "arts": arts, "buffered": nbuffered})
     }
 
+    /// the signature a submission carries (see the "Sign" action): (entity, signature as on the wire, message of the entity)
+    pub async fn build_submission(&self, a: &Value) -> Result<(mithril_common::entities::SignedEntityType, mithril_common::entities::SingleSignature, mithril_common::entities::ProtocolMessage), String> {
+        let disc = disc_of(a["entity"].as_str().unwrap());
+        let who = a["who"].as_u64().unwrap() as usize;
+        let label = a["label"].as_u64().map(|l| l as usize).unwrap_or(who);
+        let variant = a["variant"].as_str().unwrap_or("ok");
+        let set = self.tester.observer.build_current_signed_entity_type(disc).await.map_err(|_| "no current signed entity type".to_string())?;
+        let message = self.tester.dependencies.signable_builder_service.compute_protocol_message(set.clone()).await.map_err(|_| "cannot compute protocol message".to_string())?;
+        let epoch = *set.get_epoch_when_signed_entity_type_is_signed();
+        let mut sig = self.sign_as(who, epoch, &message).ok_or("signer lost every lottery")?;
+        sig.party_id = self.fixture.signers_fixture()[label].signer_with_stake.party_id.clone();
+        if a["auth"].as_bool().unwrap_or(true) {
+            sig.authentication_status = mithril_common::entities::SingleSignatureAuthenticationStatus::Authenticated;
+        }
+        if variant == "bad" {
+            let mut other = message.clone();
+            other.set_message_part(mithril_common::entities::ProtocolMessagePartKey::SnapshotDigest, "deadbeef".into());
+            if let Some(s) = self.sign_as(who, epoch, &other) {
+                sig.signature = s.signature;
+                sig.won_indexes = s.won_indexes;
+            }
+        }
+        Ok((set, sig, message))
+    }
+
     /// index of the fixture party whose registered key verifies this stored signature (-1: nobody's)
     pub fn owner_of(&self, sig_hex: &str, idx_json: &str, protocol_message_json: &str, om_epoch: u64) -> i64 {
         use mithril_common::crypto_helper::ProtocolSingleSignature;
@@ -415,6 +500,16 @@ impl Harness {
         let Ok(pm) = serde_json::from_str::<mithril_common::entities::ProtocolMessage>(protocol_message_json) else { return -1 };
         let _ = idx_json;
         let Some(set) = om_epoch.checked_sub(1).and_then(|e| self.recorded.get(&e)) else { return -1 };
+        let key = (sig_hex.to_string(), protocol_message_json.to_string(), set.clone());
+        if let Some(v) = self.owner_cache.borrow().get(&key) {
+            return *v;
+        }
+        let v = self.owner_of_uncached(&psig, &pm, set);
+        self.owner_cache.borrow_mut().insert(key, v);
+        v
+    }
+
+    fn owner_of_uncached(&self, psig: &mithril_common::crypto_helper::ProtocolSingleSignature, pm: &mithril_common::entities::ProtocolMessage, set: &Vec<usize>) -> i64 {
         let Some(b) = self.builder_for(set) else { return -1 };
         let avk = b.compute_aggregate_verification_key();
         let msg = pm.to_message();
